@@ -334,25 +334,25 @@ instance decNoKF : (s : State) → (os : List Obs) → Decidable (noKF s os)
 def mineOf (o : Obs) (out : Out) : Option Uptime := if o.fromClient then out.client else out.server
 def otherOf (o : Obs) (out : Out) : Option Uptime := if o.fromClient then out.server else out.client
 
-theorem specStep_none (s : State) (o : Obs) (out : Out) (h : s.get ⟨o.conn, o.fromClient⟩ = none) :
+private theorem specStep_none (s : State) (o : Obs) (out : Out) (h : s.get ⟨o.conn, o.fromClient⟩ = none) :
     specStep s o out = (s.set ⟨o.conn, o.fromClient⟩ (.ref o.wall o.ts),
       decide (mineOf o out = none ∧ otherOf o out = none)) := by
   simp only [specStep, h, mineOf, otherOf]
   rfl
 
-theorem specStep_bad (s : State) (o : Obs) (out : Out) (h : s.get ⟨o.conn, o.fromClient⟩ = some .bad) :
+private theorem specStep_bad (s : State) (o : Obs) (out : Out) (h : s.get ⟨o.conn, o.fromClient⟩ = some .bad) :
     specStep s o out = (s, decide (mineOf o out = none ∧ otherOf o out = none)) := by
   simp only [specStep, h, mineOf, otherOf]
   rfl
 
-theorem specStep_ref (s : State) (o : Obs) (out : Out) (t0 v0 : Nat)
+private theorem specStep_ref (s : State) (o : Obs) (out : Out) (t0 v0 : Nat)
     (h : s.get ⟨o.conn, o.fromClient⟩ = some (.ref t0 v0)) :
     specStep s o out = (if InBounds t0 v0 o.wall o.ts then s else s.set ⟨o.conn, o.fromClient⟩ .bad,
       decide (EstOk t0 v0 o.wall o.ts (mineOf o out) ∧ otherOf o out = none)) := by
   simp only [specStep, h, mineOf, otherOf]
   rfl
 
-theorem specStep_state (s : State) (o : Obs) (out : Out) : (specStep s o out).1 = (specStep s o {}).1 := by
+private theorem specStep_state (s : State) (o : Obs) (out : Out) : (specStep s o out).1 = (specStep s o {}).1 := by
   cases h : s.get ⟨o.conn, o.fromClient⟩ with
   | none => rw [specStep_none _ _ _ h, specStep_none _ _ _ h]
   | some e =>
@@ -360,7 +360,7 @@ theorem specStep_state (s : State) (o : Obs) (out : Out) : (specStep s o out).1 
     | bad => rw [specStep_bad _ _ _ h, specStep_bad _ _ _ h]
     | ref t v => rw [specStep_ref _ _ _ _ _ h, specStep_ref _ _ _ _ _ h]
 
-theorem mine_slot (o : Obs) (u : Option Uptime) :
+private theorem mine_slot (o : Obs) (u : Option Uptime) :
     mineOf o (match u with | some x => (if o.fromClient then { client := some x } else { server := some x }) | none => {}) = u ∧
     otherOf o (match u with | some x => (if o.fromClient then { client := some x } else { server := some x }) | none => {}) = none := by
   unfold mineOf otherOf
